@@ -50,6 +50,36 @@ def TTuple(*ts):
     return PT('tuple', *ts)
 
 
+def TRecDict(fields):
+    """a dict with a fixed set of constant string keys, each optional and of its own value type (e.g. the clause map
+    returned by separate_actions): PT('recdict', PT('rdnames:k1\x1fk2..'), V1, V2, ...)"""
+    names = [k for k, _ in fields]
+    return PT('recdict', PT('rdnames:' + '\x1f'.join(names)), *[v for _, v in fields])
+
+
+def recdict_names(pt):
+    return pt.args[0].kind[len('rdnames:'):].split('\x1f')
+
+
+def recdict_rep(pt):
+    """representation: a tuple (present_1, value_1, present_2, value_2, ...)"""
+    parts = []
+    for v in pt.args[1:]:
+        parts.append(TBool)
+        parts.append(v)
+    return TTuple(*parts)
+
+
+def recdict_field(pt, t, key):
+    """(presence Bool term, value SV) of a constant key, or None when the key is not one of the declared ones"""
+    names = recdict_names(pt)
+    if key not in names:
+        return None
+    i = names.index(key)
+    rep = recdict_rep(pt)
+    return tuple_get(rep, t, 2 * i), SV(pt.args[1 + i], tuple_get(rep, t, 2 * i + 1))
+
+
 def TOpt(t):
     if t.kind == 'opt' or t.kind == 'cell' or t.kind == 'none':
         return t
@@ -147,7 +177,7 @@ def sort_of(pt):
         return name
     if k == 'opt':
         inner = pt.args[0]
-        if inner.is_ref():
+        if inner.is_ref() or inner.kind == 'mtag':
             return INT
         if pt in _sort_cache:
             return _sort_cache[pt]
@@ -158,6 +188,11 @@ def sort_of(pt):
         return name
     if k in ('exc', 'mtag'):
         return INT
+    if k == 'opaque':
+        smt.declare_sort('OpaqueV')      # values the verified code only passes around (e.g. variable maps of the text layer)
+        return 'OpaqueV'
+    if k == 'recdict':
+        return sort_of(recdict_rep(pt))
     if k == 'map':
         return ArrS(sort_of(pt.args[0]), sort_of(pt.args[1]))
     raise TypeError('no sort for %r' % (pt,))
@@ -189,29 +224,33 @@ def tuple_get(pt, t, i):
     return dt_sel('%s_%d' % (name, i), t, sort_of(pt.args[i]), 'mk_' + name)
 
 
+def _nullable(pt):
+    return pt.args[0].is_ref() or pt.args[0].kind == 'mtag'
+
+
 def opt_none(pt):
-    if pt.args[0].is_ref():
+    if _nullable(pt):
         return IntC(0)
     name = sort_of(pt)
     return dt_ctor(name, 'none_' + name, ())
 
 
 def opt_some(pt, t):
-    if pt.args[0].is_ref():
+    if _nullable(pt):
         return t
     name = sort_of(pt)
     return dt_ctor(name, 'some_' + name, (t,))
 
 
 def opt_is_none(pt, t):
-    if pt.args[0].is_ref():
+    if _nullable(pt):
         return Eq(t, IntC(0))
     name = sort_of(pt)
     return dt_test('none_' + name, t)
 
 
 def opt_val(pt, t):
-    if pt.args[0].is_ref():
+    if _nullable(pt):
         return t
     name = sort_of(pt)
     return dt_sel('val_' + name, t, sort_of(pt.args[0]), 'some_' + name)
@@ -395,6 +434,9 @@ def truthy(sv):
     raise CoerceError('truthiness of %r' % (sv.pt,))
 
 
+TYPE_ALIASES = {}
+
+
 def parse_type(node, classes=None):
     """contract type expression (ast) -> PT"""
     import ast
@@ -410,6 +452,8 @@ def parse_type(node, classes=None):
                 'Rec': TList(TCell), 'RecV': TSeq(TCell)}
         if n in base:
             return base[n]
+        if n in TYPE_ALIASES:
+            return TYPE_ALIASES[n]
         raise TypeError('unknown type name %s' % n)
     if isinstance(node, ast.Constant) and isinstance(node.value, str):
         return TObj(node.value)
@@ -419,6 +463,11 @@ def parse_type(node, classes=None):
         elts = sl.elts if isinstance(sl, ast.Tuple) else [sl]
         if head == 'NT':
             return NAMED_TUPLE_TYPES[elts[0].value][0]
+        if head == 'RecDict':
+            d = elts[0]
+            if not isinstance(d, ast.Dict):
+                raise TypeError('RecDict[{key: Type, ...}] expected')
+            return TRecDict([(k.value, parse_type(v)) for k, v in zip(d.keys, d.values)])
         if head in ('Fn', 'Cls'):
             return PT('fnref' if head == 'Fn' else 'clsref', elts[0].value)
         if head == 'Obj':
@@ -442,4 +491,6 @@ def parse_type(node, classes=None):
             return TSet(args[0])
         if head == 'Map':         # ghost total map (SMT array value)
             return PT('map', args[0], args[1])
+    if isinstance(node, ast.Subscript) and node.value.id == 'RecDict':
+        pass
     raise TypeError('bad type expression %s' % ast.dump(node))
